@@ -67,7 +67,10 @@ def run_dc(history, nadapters=2):
     return obs, [a.n for a in adapters]
 
 
-def r_vals(d): return L(T(P(k), Zr(v)) for k, v in d.items())
+NONE = -777_777      # the Python value None as a port value: one more value, equal to itself only
+
+
+def r_vals(d): return L(T(P(k), Zr(NONE if v is None else v)) for k, v in d.items())
 
 
 def render_dc(history, obs, notif):
@@ -90,7 +93,7 @@ def gen_history(rng, n=None):
             elif x < 0.6 and p in cur:
                 outs[p] = cur[p]              # repeat the previous value
             else:
-                outs[p] = rng.randint(0, 2)   # (maybe) change
+                outs[p] = rng.choice([0, 1, 2, 0, 1, 2, None])   # (maybe) change; None is a value like any other
         cur.update(outs)
         # cur keeps the last value ever reported, so "omit then re-report the same value" occurs
         h.append((chg, outs, rng.choice([None, None, i * 10 + 5])))
